@@ -160,7 +160,12 @@ def model_changes(quick):
              ("Transfer", {"growth_model": "Carroll1992", "growth_params": {"zmax": 50.0, "dz": 0.02}}, {"growth_model": "GenMFGrowth"}, "growth_factor"),
              ("MassFunction", {"hmf_model": "SMT", "hmf_params": {"a": 0.8, "p": 0.25}}, {"hmf_model": "ST"}, "fsigma"),
              ("Transfer", {"transfer_model": "BBKS", "transfer_params": {"a": 2.4}}, {"transfer_model": "BondEfs"}, "power"),
-             ("MassFunctionWDM", {"wdm_model": "Viel05", "wdm_params": {"mu": 1.3}}, {"wdm_mass": 2.5}, "dndm")]
+             ("MassFunctionWDM", {"wdm_model": "Viel05", "wdm_params": {"mu": 1.3}}, {"wdm_mass": 2.5}, "dndm"),
+             # a cosmology change through clone() reaches the components that survive it (mass definition, filter, growth): thresholds that
+             # depend on Omega_m(z) belong to the clone's cosmology
+             ("MassFunction", {"mdef_model": "SOCritical", "hmf_model": "Tinker08", "z": 1.0}, {"cosmo_params": {"Om0": 0.25}}, "halo_overdensity_mean"),
+             ("MassFunction", {"mdef_model": "SOVirial", "hmf_model": "Tinker10", "z": 1.0}, {"cosmo_params": {"Om0": 0.4, "H0": 62.0}}, "dndm"),
+             ("MassFunction", {"mdef_model": "SOCritical", "mdef_params": {"overdensity": 500}, "hmf_model": "Watson", "z": 0.5}, {"cosmo_model": "WMAP9"}, "fsigma")]
     with warnings.catch_warnings():
         warnings.simplefilter("ignore")
         np.seterr(all="ignore")
